@@ -38,6 +38,7 @@ SCENARIOS = [
     ('distinct-count', 'select distinct count a1', False),
     ('group-all-aggregates', 'select a1, COUNT(*), MIN(a2), MAX(a2), SUM(a2), AVG(a2), VARIANCE(a2), MEDIAN(a2), ARRAY_AGG(a3), ANY_VALUE(a1) group by a1', False),
     ('join', 'select a1, b2, bNR join b on a1 == b1', True),
+    ('aggregates-over-numbers', 'select AVG(NR), VARIANCE(len(a1)), MIN(NR * 1.5), SUM(NF), MEDIAN(NR)', False),
     ('update-nu', 'update a2 = str(NU) + a2 where a1 != "c"', False),
     ('top', 'select top 1 a1, NF', False),
     ('syntax-error', 'select a1 +', False),
